@@ -125,7 +125,17 @@ func main() {
 				// the oracle skips the log and counts it
 				continue
 			}
-			cf.Printf("%s.b\tB\t%s\n", v.ID, modelInput(l, v, ro))
+			fl := ""
+			if v.Replay {
+				fl += "r"
+			}
+			if v.Syncer {
+				fl += "s"
+			}
+			if fl == "" {
+				fl = "-"
+			}
+			cf.Printf("%s.b\tB\t%s\t%s\n", v.ID, fl, modelInput(l, v, ro))
 			io.Printf("%s.b\t%s # %s\n", v.ID, strings.Join(ro.trace, " "), strings.Join(ro.kinds, " "))
 		}
 	}
@@ -181,6 +191,7 @@ func genVariants(r *hx.Rng, l *Log, idx int, tier string) []*Variant {
 	//   v1, v2 vs v0: partition only;  v3 vs v1: isReplaying;  v4, v11 vs v1: engine;
 	//   v5, v6 vs v0 and v7 vs v6: position of the log relative to the wall clock;
 	//   v8 vs v0: nothing (second run in the same process);  v9, v10 vs v1: checkpoint at a cut,
+	//   v17 vs v16: isReplaying for cluster-syncer entries; v16 vs v18: partition for cluster-syncer entries;
 	//   restore into a new store, tail replayed;  v12 vs v14, v13 vs v15: node-local expiry sweep (local policy).
 	n := len(l.Reqs)
 	id := func(k int) string { return l.ID + ".v" + strconv.Itoa(k) }
@@ -223,6 +234,18 @@ func genVariants(r *hx.Rng, l *Log, idx int, tier string) []*Variant {
 		v10.Cut = cut
 		vs = append(vs, v10)
 		vs = append(vs, mk(11, "rocksdb", p1))
+	}
+	if thorough || idx%4 == 2 {
+		// entries that came from the cluster syncer (conflict pre-check when live): one request per call
+		ps := partGiantRandom(r, n)
+		v16 := mk(16, "mem", ps)
+		v16.Syncer = true
+		v17 := mk(17, "mem", ps)
+		v17.Syncer = true
+		v17.Replay = true
+		v18 := mk(18, "mem", partOne(n))
+		v18.Syncer = true
+		vs = append(vs, v16, v17, v18)
 	}
 	if l.Policy == "local" && haveSweep {
 		// (pebble: with the mem engine the sweep itself deadlocks as soon as expired keys of two data
@@ -306,7 +329,7 @@ func mkReq(a []string, ts int64) Req {
 
 func project(l *Log, v *Variant, keep []bool) (*Log, *Variant) {
 	nl := &Log{ID: l.ID, Policy: l.Policy}
-	nv := &Variant{ID: v.ID, Engine: v.Engine, Replay: v.Replay, Shift: v.Shift, Cut: -1, Expire: -1}
+	nv := &Variant{ID: v.ID, Engine: v.Engine, Replay: v.Replay, Shift: v.Shift, Syncer: v.Syncer, Cut: -1, Expire: -1}
 	pos := 0
 	kept := 0
 	for _, op := range v.Part {
